@@ -5637,8 +5637,11 @@ class Parser:
         self.NO_PAREN_FUNCTION_PARSERS["PRIOR"] = lambda self: self.expression(
             exp.Prior(this=self._parse_bitwise())
         )
-        connect = self._parse_disjunction()
-        self.NO_PAREN_FUNCTION_PARSERS.pop("PRIOR")
+        try:
+            connect = self._parse_disjunction()
+        finally:
+            # the table is shared by every parser of this class: take PRIOR out again even if the condition fails to parse
+            self.NO_PAREN_FUNCTION_PARSERS.pop("PRIOR", None)
         return connect
 
     def _parse_connect(self, skip_start_token: bool = False) -> exp.Connect | None:
